@@ -321,6 +321,53 @@ def attachment_case(ck, rng, stats):
     sb.cleanup()
 
 
+def selective_attachment_case(ck, rng, stats):
+    """an attachment block whose rule selects SOME parts: the command runs once for every selected part, in order, with that
+    part on stdin, whatever the parts before and after it are; a failing command stops the remaining actions"""
+    sb = mdrun.Sandbox()
+    src = sb.maildir('src'); dst = sb.maildir('dst')
+    helper = common.rec_helper()
+    hout = os.path.join(sb.root, 'helper-out'); os.makedirs(hout)
+    kinds = [rng.choice([b'text/calendar', b'text/plain', b'application/pdf', b'text/calendar; method=REQUEST']) for _ in range(rng.randrange(2, 6))]
+    if not any(b'calendar' in k for k in kinds):
+        kinds[rng.randrange(len(kinds))] = b'text/calendar'
+    if all(b'calendar' in k for k in kinds):
+        kinds.insert(rng.randrange(1, len(kinds) + 1), b'text/plain')
+    bodies = [b'part %d body\n' % i for i in range(len(kinds))]
+    text = b'To: a\nContent-Type: multipart/mixed; boundary="sel"\n\n' + \
+           b''.join(b'--sel\nContent-Type: %s\n\n%s' % (k, b) for k, b in zip(kinds, bodies)) + b'--sel--\n'
+    fail = rng.randrange(4) == 0
+    mode = rng.choice([b'stdin', b'stdin body'])
+    conf = sb.write_conf(b'maildir "%s" {\n\tmatch all attachment {\n\t\tmatch header "Content-Type" /calendar/ exec %s { "%s" "sel" }\n\t} move "%s"\n}\n'
+                         % (src.encode(), mode, helper.encode(), dst.encode()))
+    sb.add(src, 'new', text)
+    rc, out, err = sb.run([], conf=conf, env={'VERIF_HELPER_OUT': hout, 'VERIF_HELPER_EXIT': '3' if fail else '0'})
+    stats['runs'] += 1; stats['selective'] = stats.get('selective', 0) + 1
+    calls = common.helper_calls(hout)
+    want = [(b'Content-Type: %s\n\n%s' % (k, b)) if mode == b'stdin' else b for k, b in zip(kinds, bodies) if b'calendar' in k]
+    got = [c['stdin'] for c in calls]
+    moved = len(sb.snapshot(dst))
+    rep = {'config': open(conf, 'rb').read().decode(errors='replace'), 'message': text.decode(errors='replace'), 'exit': rc, 'stderr': err[-300:].decode(errors='replace')}
+    bad = None
+    if fail:
+        if got != want[:1]:
+            bad = 'the command fails on the first selected part: it must run exactly once, on that part; it received %r' % [g[:40] for g in got]
+        elif rc == 0 or moved:
+            bad = 'the command failed but mdsort exits %d and %s the message' % (rc, 'moved' if moved else 'left')
+    else:
+        if got != want:
+            bad = 'parts %r: the commands received %r, the selected parts are %r' % ([k.decode() for k in kinds], [g[:40] for g in got], [w[:40] for w in want])
+        elif rc != 0 or moved != 1:
+            bad = 'all commands succeeded but mdsort exits %d, moved=%d' % (rc, moved)
+    if bad:
+        stats['viol'] += 1
+        if stats['viol'] <= 4:
+            ck.violation('attachment block selecting some parts (exec %s): %s' % (mode.decode(), bad), rep)
+    else:
+        stats['nontrivial'] += 1
+    sb.cleanup()
+
+
 def run(ck):
     stats = dict(runs=0, nontrivial=0, viol=0)
     samples = []
@@ -334,6 +381,8 @@ def run(ck):
             attachment_case(ck, ck.rng, stats)
         if i % 3 == 1:
             multi_exec_case(ck, ck.rng, stats)
+        if i % 3 == 2:
+            selective_attachment_case(ck, ck.rng, stats)
         if len(ck.violations) > 6:
             break
     ck.coverage.update({
@@ -341,7 +390,7 @@ def run(ck):
         'distinct_nontrivial': stats['nontrivial'],
         'rule': 'exec actions with 1-7 arguments from a 16-element family (spaces, quotes, glob and shell metacharacters, 8-bit), options none / stdin / stdin body, '
                 'placed after nothing / label / add-header / flag / move and before nothing / move / label, helper exit 0 / 3 / 127 / SIGKILL, in maildir and stdin '
-                '(a third of the moves / flags before the exec across file systems); rules with 2-4 exec actions of mixed stdin options (and a command condition): every child gets what its own action asks for; '
+                '(a third of the moves / flags before the exec across file systems); rules with 2-4 exec actions of mixed stdin options (and a command condition): every child gets what its own action asks for; attachment blocks whose rule selects some of 2-6 parts (exec stdin / stdin body, a quarter with a failing command followed by a move); '
                 'mode, over plain, base64, quoted-printable and multipart/alternative bodies; command conditions with exit 0/1/7/127/SIGTERM; attachment blocks over '
                 'generated MIME trees. non-trivial = the command ran exactly once (or the parts were compared); counted per run',
         'samples': samples,
